@@ -78,7 +78,8 @@ def enum_member(desc, tier, seed):
         for val in range(dv.n_opts):
             try:
                 b2, gp2 = make_processor(desc, 'COMPLETE')
-                gp2.fix_des_var(gp2.des_vars[k], val)
+                dv_fixed = gp2.des_vars[k]
+                gp2.fix_des_var(dv_fixed, val)
             except RuntimeError:
                 break   # connection-choice variables cannot be fixed (C15)
             witf = ['COMPLETE', 'fixed', k, val]
@@ -104,6 +105,16 @@ def enum_member(desc, tier, seed):
                 ctx.check('C04.fixed-n-valid-equals-rows', nvf == len(Xf), witf, f'n_valid={nvf}, rows={len(Xf)}', ntf)
             except Exception as e:  # noqa
                 ctx.check('C04.fixed-n-valid-equals-rows', False, witf, f'{type(e).__name__}: {e}', ntf)
+            # the enumeration is a function of the graph and of what is fixed NOW: after releasing the variable the
+            # same processor lists the rows of the unrestricted problem again
+            try:
+                gp2.free_des_var(dv_fixed)
+                Xr, _ = rows_of(gp2)
+                same = Xr is not None and sorted(map(tuple, Xr)) == sorted(map(tuple, X))
+                ctx.check('C04.enumeration-after-release-equals-original', same, witf + ['released'],
+                          f'after fixing, enumerating, decoding and releasing: {None if Xr is None else len(Xr)} rows, originally {len(X)}', ntf)
+            except Exception as e:  # noqa
+                ctx.check('C04.enumeration-after-release-equals-original', False, witf + ['released'], f'{type(e).__name__}: {e}', ntf)
     ctx.samples.append(dict(desc=desc.label, rows=len(X), reference_architectures=len(ref)))
     return ctx.result()
 
@@ -495,6 +506,7 @@ def activeness_member(desc, tier, seed):
         return ctx.result()   # construction / enumeration failures are C01's and C04's clauses
     if X is None:
         return ctx.result()
+    undecodable = set()       # rows that do not decode on the fresh processor either: C04's clause, not repeated here
     for x, a in zip(X, A):
         wit = ['COMPLETE', 'enumerated-row', x]
         nt = (desc.label, 'row', tuple(x))
@@ -509,9 +521,46 @@ def activeness_member(desc, tier, seed):
             try:
                 _, xi, ai = gp.get_graph(list(x), create=create)
             except Exception:
+                undecodable.add((tuple(x), create))
                 continue      # C04.row-decodes-to-itself
             cont = [k for k, dv in enumerate(dvs) if not dv.is_discrete]
             ctx.check('C07.enumeration-and-decode-agree-on-activeness',
                       [bool(v) for k, v in enumerate(ai) if k not in cont] == [bool(v) for k, v in enumerate(a) if k not in cont],
                       wit + [create], f'row {x}: listed activeness {list(a)}, decode (create={create}) reports {list(map(bool, ai))}', nt + (create,))
+    # the same agreement on a processor that has been used before: a variable was fixed, vectors were decoded without
+    # and with materialising while it was fixed, and it was released again
+    for k0, dv0 in enumerate(dvs):
+        if not dv0.is_discrete or k0 >= 2:
+            continue
+        try:
+            gp.fix_des_var(dv0, dv0.n_opts - 1)
+        except RuntimeError:
+            break     # connection-choice variables cannot be fixed
+        try:
+            Xf, _ = rows_of(gp)
+            for xf in (Xf if Xf is not None else [])[:8]:
+                for create in (False, True):
+                    try:
+                        gp.get_graph(list(xf), create=create)
+                    except Exception:  # noqa
+                        pass
+        finally:
+            gp.free_des_var(dv0)
+        for x, a in zip(X, A):
+            wit = ['COMPLETE', 'enumerated-row-after-fix-and-release', x, k0]
+            nt = (desc.label, 'row-after', tuple(x), k0)
+            for create in (False, True):
+                if (tuple(x), create) in undecodable:
+                    continue
+                try:
+                    _, xi, ai = gp.get_graph(list(x), create=create)
+                except Exception as e:  # noqa
+                    ctx.check('C07.enumeration-and-decode-agree-on-activeness', False, wit + [create],
+                              f'row {x} no longer decodes after fixing and releasing variable {k0}: {type(e).__name__}: {e}', nt + (create,))
+                    continue
+                cont = [k for k, dv in enumerate(dvs) if not dv.is_discrete]
+                ok = [bool(v) for k, v in enumerate(ai) if k not in cont] == [bool(v) for k, v in enumerate(a) if k not in cont] and \
+                    all(abs(float(xi[k]) - float(x[k])) < 1e-9 for k in range(len(dvs)) if k not in cont)
+                ctx.check('C07.enumeration-and-decode-agree-on-activeness', ok, wit + [create],
+                          f'after fixing and releasing variable {k0}: row {x} listed active {list(a)}, decode (create={create}) gives {list(xi)} active {list(map(bool, ai))}', nt + (create,))
     return ctx.result()
